@@ -73,12 +73,13 @@ def gen_spec(rng, tier, allow_scale=False):
         ranges.append([lo, lo + d * w])          # np.linspace(lo, hi, d+1) is exact
     # some archives live at a large scale (measures in the thousands), where the archive's epsilon is far below one float32 ulp
     mscale = rng.choice([1.0, 1.0, 1.0, 1024.0]) if allow_scale else 1.0
+    odtype = "f" if (allow_scale and rng.random() < 0.25) else None      # dict dtype: float32 objectives next to float64 measures
     ranges = [[a * mscale, b * mscale] for a, b in ranges]
     freq = rng.choice([1, 2, 3, 4, 5, 7, 9])
     cap = rng.choice([max(1, freq - 2), freq, freq + 3, 1000, 2, 1])
     return {"kind": "sliding", "dtype": rng.choice(["f", "d"]), "sol_dim": rng.randint(1, 3), "extras": rng.choice(au.EXTRA_LAYOUTS),
             "lr": None, "tmin": None, "offset": rng.choice([0.0, -2.0, 1.5]), "dims": dims, "ranges": ranges,
-            "remap_frequency": freq, "buffer_capacity": cap, "seed": rng.randrange(1 << 30), "mscale": mscale}
+            "remap_frequency": freq, "buffer_capacity": cap, "seed": rng.randrange(1 << 30), "mscale": mscale, "odtype": odtype}
 
 
 def gen_ops(rng, spec, nops, force_sliver=False):
@@ -106,6 +107,8 @@ def gen_ops(rng, spec, nops, force_sliver=False):
             if rng.random() < 0.1:
                 v = rng.choice([-7.0, 7.0, spec["ranges"][i][0], spec["ranges"][i][1]])
             m.append(max(-7.0, min(7.0, round(v * 8) / 8.0)) * msc if v not in (spec["ranges"][i][0], spec["ranges"][i][1]) else v)
+            if spec.get("odtype") and spec["dtype"] == "d":
+                m[-1] += rng.randrange(1, 1000) * 2.0 ** -40      # float64 measures that are not float32 values
         pool.append(m)
         return m
 
@@ -217,7 +220,7 @@ def compare(driver, spec, ops):
         return None
     trace, archive, table = run_impl(spec, ops)
     mres = model_run(driver, spec, ops)
-    dtype = au.DT[spec["dtype"]]
+    dtype = au.DT[spec.get("odtype") or spec["dtype"]]     # feedback values and statistics are computed in the OBJECTIVE's dtype
     for step, (ent, m) in enumerate(zip(trace, mres)):
         if "error" in ent:
             return {"step": step, "what": "valid call raised", "impl": ent["error"]}
@@ -357,6 +360,8 @@ def check(rep, tier, seed, driver):
             rep.count("index_arith_cases")
         else:
             spec = gen_spec(rng, tier, allow_scale=True)
+            if spec.get("odtype"):
+                spec["dtype"] = "d"
             ops = gen_ops(rng, spec, rng.randint(3, 14 if tier == "quick" else 40))
         cases.append({"spec": spec, "ops": ops})
     remaps = 0
